@@ -13,6 +13,18 @@ import terms
 
 _REPORTS = None
 
+# clause kinds that follow from the assertions of their own element alone (exactly the kinds covered by the
+# per-element soundness lemmas); only these may be swept element-locally when the whole program is infeasible
+LOCAL_KINDS = {
+    'start_ge_0', 'duration', 'release', 'deadline',
+    'static_span', 'dynamic_span', 'selection_count', 'selected_span', 'unselected_idle', 'inert_busy',
+    'start_at', 'start_after', 'end_at', 'end_before', 'precedence', 'start_synced', 'end_synced', 'dont_overlap',
+    'group_window', 'group_length', 'group_order', 'scheduleN_lower',
+    'force_schedule', 'condition_schedule', 'dependency', 'force_n',
+    'not', 'or', 'and', 'xor', 'implies', 'if_then_else', 'expression', 'force_apply_n',
+    'unavailable', 'workload', 'interrupted_fixed', 'same_workers', 'distinct_workers',
+}
+
 
 def _tag_family(tag):
     return tag.split(':')[0]
@@ -48,25 +60,67 @@ def check_one(args):
         mexprs = [e for _, e in ma]
         if compare.syntactic_equal(A, mexprs):
             out['syntactic'] = True
-        else:
-            fw = compare.entails(A, ma)
+        feas = compare.entails(A, [('false', z3.BoolVal(False))])[0][1]
+        out['impl_feasible'] = {'invalid': True, 'valid': False}.get(feas)
+        if not out['syntactic']:
+            if out['impl_feasible']:
+                # the weakest condition under which the theorem transfers (DESIGN 3.3)
+                fw = compare.entails(A, ma)
+            else:
+                # an infeasible assertion set entails everything: compare element by element (O2)
+                fw = []
+                for kind, objs in (('task', im.tasks), ('cons', im.cons)):
+                    for eid, obj in objs.items():
+                        tagname = '%s:%d' % (kind, eid)
+                        goals = [(t, e) for t, e in ma if t == tagname]
+                        if goals:
+                            fw += compare.entails(im.rename(obj.get_z3_assertions()), goals)
             for (label, res, m) in fw:
                 if res == 'invalid':
                     out['fwd_bad'].append({'tag': label, 'model_assert': [e for t, e in ma if t == label][0].sexpr()[:300],
                                            'witness': compare.model_to_dict(m)})
                 elif res == 'unknown':
                     out['unknown'] += 1
-            bw = compare.entails(mexprs, [(i, a) for i, a in enumerate(A)])
-            for (label, res, m) in bw:
-                if res == 'invalid':
-                    out['bwd_bad'].append({'impl_index': label, 'impl_assert': A[label].sexpr()[:300],
-                                           'witness': compare.model_to_dict(m)})
-                elif res == 'unknown':
-                    out['unknown'] += 1
+            mfeas = compare.entails(mexprs, [('false', z3.BoolVal(False))])[0][1] == 'invalid'
+            if mfeas:
+                bw = compare.entails(mexprs, [(i, a) for i, a in enumerate(A)])
+                for (label, res, m) in bw:
+                    if res == 'invalid':
+                        out['bwd_bad'].append({'impl_index': label, 'impl_assert': A[label].sexpr()[:300],
+                                               'witness': compare.model_to_dict(m)})
+                    elif res == 'unknown':
+                        out['unknown'] += 1
+            else:
+                for kind, objs in (('task', im.tasks), ('cons', im.cons)):
+                    for eid, obj in objs.items():
+                        tagname = '%s:%d' % (kind, eid)
+                        hyps = [e for t, e in ma if t == tagname]
+                        if kind == 'cons' and getattr(obj, '_created_from_assertion', False):
+                            continue
+                        goals = [((tagname, i), a) for i, a in enumerate(im.rename(obj.get_z3_assertions()))]
+                        for (label, res, m) in compare.entails(hyps, goals):
+                            if res == 'invalid':
+                                out['bwd_bad'].append({'impl_index': str(label), 'impl_assert': dict(goals)[label].sexpr()[:300],
+                                                       'witness': compare.model_to_dict(m)})
+                            elif res == 'unknown':
+                                out['unknown'] += 1
         if opts.get('sweep', True) and sp:
             keys = opts.get('spec_prefixes')
             goals = [(k, e) for k, e in sp if keys is None or k.startswith(tuple(keys))]
-            sw = compare.entails(A, goals)
+            if out['impl_feasible']:
+                sw = compare.entails(A, goals)
+            else:
+                # infeasible program: sweep each clause against the assertions of its own element only
+                sw = []
+                for k, e in goals:
+                    el = k.split('/')[1]
+                    kind, _, eid = el.partition(':')
+                    objs = {'task': im.tasks, 'cons': im.cons}.get(kind)
+                    if objs is None or not eid.isdigit() or int(eid) not in objs:
+                        continue
+                    if k.split('/')[-1] not in LOCAL_KINDS:
+                        continue
+                    sw += compare.entails(im.rename(objs[int(eid)].get_z3_assertions()), [(k, e)])
             for (label, res, m) in sw:
                 if res == 'invalid':
                     out['spec_bad'].append({'key': label, 'witness': compare.model_to_dict(m)})
